@@ -1273,6 +1273,8 @@ def check_boundary(api, fn, pname, call, shapes):
                 out.append(finding("raises-in-domain:" + fn.key, "%s raises %s (%s) at a boundary value of '%s' inside its documented domain" % (
                     fn.key, cls, str(o1.exc)[:60], pname), call))
             return out, "rejected"
+        if re.search(r":raises?:?\s*%s\b" % cls, fn.doc):
+            return out, "documented " + cls          # e.g. ZeroDivisionError of the Angle division operators
         key = ("raises-in-domain:" if inside else "wrong-exception:") + fn.key
         out.append(finding(key, "%s raises %s (%s) at a boundary value of '%s' (a comparison constant of its source), not TypeError/ValueError" % (
             fn.key, cls, str(o1.exc)[:60], pname), call))
@@ -1292,7 +1294,8 @@ def check_boundary(api, fn, pname, call, shapes):
             out.append(finding("wrong-result-type:" + fn.key, "%s returns %s at a boundary value of '%s', documented :rtype: %s" % (
                 fn.key, shape(o1.result), pname, fn.rtype), call))
         sh = shape(o1.result)
-        if shapes is not None and fn.key in shapes and sh not in shapes[fn.key]:
+        num = lambda t: re.sub(r"\bint\b", "float", t)      # an int where a float was recorded is a number (int inputs)
+        if shapes is not None and fn.key in shapes and num(sh) not in {num(t) for t in shapes[fn.key]}:
             out.append(finding("wrong-result-shape:" + fn.key, "%s returns %s at a boundary value of '%s'; recorded shapes: %s" % (
                 fn.key, sh, pname, sorted(shapes[fn.key])), call))
     o2 = run_call(api, call, check_state=False)
